@@ -99,21 +99,6 @@ def parse_res(v):
     return g
 
 
-def classify(pat, line, flags, fast, eng):
-    """fast / eng: None (not found) or (so, eo).  Returns a known-finding id or None."""
-    lbeg, wbeg, wend, lend = anchors(pat)
-    n = len(line)
-    if fast is None and eng is not None:
-        # the engine lets ^ hold at the end of the subject because the byte before it is the
-        # line's own terminating newline: an empty match on the phantom line after the text
-        if lbeg and eng == (n, n) and line.endswith(b'\n'):
-            return 'KF-PHANTOM-BOL'
-        # $ under NOTEOL: rstr_find gives up although $ holds before the newline
-        if lend and (flags & 4) and eng[1] == n - 1 and line.endswith(b'\n'):
-            return 'KF-NOTEOL'
-    return None
-
-
 def run(ctx):
     res = ctx.res
     rng = ctx.rng
@@ -134,14 +119,9 @@ def run(ctx):
         res.broken_ties.append("regex.c's metacharacter string changed: %s; the Python operator judgement of c12.py must follow" % (m.group(1) if m else '?'))
 
     def report(pat, line, flags, fast, eng, what):
-        kf = classify(pat, line, flags, fast, eng)
-        v = {'what': what, 'input': ['f %s %s %d' % (hx(pat), hx(line), flags)],
-             'pattern': pat.decode('utf-8', 'replace'), 'line': line.decode('utf-8', 'replace'), 'flags': flags,
-             'expected': 'general engine: %s' % (eng,), 'observed': 'fast path: %s' % (fast,)}
-        if kf:
-            v['what'] = {'KF-PHANTOM-BOL': 'engine matches ^ on the phantom empty line after the trailing newline, fast path answers not found',
-                         'KF-NOTEOL': 'fast path gives up on $ under NOTEOL, engine matches before the newline'}[kf]
-        res.violation(v, kf=kf)
+        res.violation({'what': what, 'input': ['f %s %s %d' % (hx(pat), hx(line), flags)],
+                       'pattern': pat.decode('utf-8', 'replace'), 'line': line.decode('utf-8', 'replace'), 'flags': flags,
+                       'expected': 'general engine: %s' % (eng,), 'observed': 'fast path: %s' % (fast,)})
 
     # ------------------------------------------------------------------ single requests
     singles = []        # (pat, line, flags, kind)
@@ -237,11 +217,7 @@ def run(ctx):
                 res.disagree({'what': 'which path the pattern takes', 'input': [reqs[i]], 'implementation': c, 'model': out_m[i]})
             elif path == 's':
                 mf = parse_res(dm.get('find', ''))
-                ms = parse_res(dm.get('spec', ''))
-                # where the model is proved to deviate from the spec (C12_noteol_refuted: $ under NOTEOL) a
-                # repaired rstr.c that answers what the spec says is accepted as well
-                repaired = (flags & 4) and anchors(pat)[3] and mf is None and isinstance(ms, list) and fast is not None and fast[:1] == ms[:1]
-                if mf != fast and not repaired:
+                if mf != fast:
                     res.disagree({'what': 'fast-path answer', 'input': [reqs[i]], 'implementation': c, 'model': out_m[i]})
         # oracle
         if has_operator(pat) and path == 's':
@@ -317,19 +293,12 @@ def run(ctx):
                         res.nontriv('%s/%d' % (hx(pat), f))
                 if mout is not None:
                     dm = parse_kv(mout[pi])
-                    Rm, Sm = dm.get('R', ''), dm.get('S', '')
+                    Rm = dm.get('R', '')
                     k = None
                     if dm.get('path') != 's' or len(Rm) != len(R):
                         k = 0
                     elif Rm != R:
-                        lend = anchors(pat)[3]
-                        for j in range(ncase):
-                            if Rm[2 * j:2 * j + 2] != R[2 * j:2 * j + 2]:
-                                # $ under NOTEOL: the model is proved to deviate from the spec there; a repaired rstr.c may follow the spec
-                                if lend and (cases[j][0] & 4) and Rm[2 * j:2 * j + 2] == '--' and Sm[2 * j:2 * j + 2] == R[2 * j:2 * j + 2]:
-                                    continue
-                                k = j
-                                break
+                        k = next(j for j in range(ncase) if Rm[2 * j:2 * j + 2] != R[2 * j:2 * j + 2])
                     if k is not None:
                         fl, line = cases[k]
                         res.disagree({'what': 'fast-path answer (sweep)', 'input': ['f %s %s %d' % (hx(pat), hx(line), fl)],
